@@ -14,6 +14,7 @@ PROP = "C05"
 LEVEL = "proof"
 THEOREMS = {"Proofs.Props.C05": ["MsPack.Lzss.C05_lzss_roundtrip", "MsPack.Szdd.C05_szdd_roundtrip", "MsPack.Szdd.C05_szdd_qbasic_roundtrip"],
             "Proofs.Props.C05Kwaj": ["MsPack.Kwaj.C05_kwaj_plain_roundtrip", "MsPack.Kwaj.readHeaders_spec"],
+            "Proofs.Props.C05Lzh": ["MsPack.Kwaj.Lzh.C05_lzh_flat_roundtrip", "MsPack.Kwaj.Lzh.C05_lzh_type3_flatlens_roundtrip_partial", "MsPack.Kwaj.C05_kwaj_lzh_roundtrip"],
             "Proofs.Props.Tables": ["MsPack.TableObligations.szdd_signatures"]}
 ASSUMPTIONS = ["theorems: the LZSS round trip (every token list, every input buffer size, both ring start positions) and the SZDD file round trip (header values + payload) on the models of lzssd.c / szddd.c; "
                "KWAJ: header round trip for all 16 combinations of the optional length / unknown / extra-text parts and the stored and xor payload round trips are theorems (C05_kwaj_plain_roundtrip); the name/extension fields and the LZH / MSZIP payloads are not: covered by model/implementation agreement and the plan oracle",
